@@ -177,7 +177,7 @@ func (c Case) relDB() promsrv.RelDB {
 
 func (c Case) config() string {
 	var b strings.Builder
-	fmt.Fprintf(&b, "prometheus \"prom\" {\n  uri = %q\n  timeout = \"60s\"\n  rateLimit = 10000\n  concurrency = 4\n  uptime = \"up\"\n", urlMark)
+	fmt.Fprintf(&b, "prometheus \"prom\" {\n  uri = %q\n  timeout = \"60s\"\n  rateLimit = 10000\n  concurrency = 2\n  uptime = \"up\"\n", urlMark)
 	if len(c.Tags) > 0 {
 		fmt.Fprintf(&b, "  tags = [%s]\n", quoteList(c.Tags))
 	}
@@ -710,6 +710,7 @@ func check(c Case) (out outcome, err error) {
 		lint.Options{ConfigHCL: strings.ReplaceAll(c.config(), urlMark, srv.URL), Enabled: []string{"promql/series"}},
 	)
 	out.Log = srv.Log()
+	srv.CloseClientConnections() // pint's per-run HTTP transport leaves idle connections behind (2 fds each, 90s)
 	if res.Panicked() {
 		return out, fmt.Errorf("pint panicked at %s: %v\n%s", res.PanicAt, res.Panic, res.Stack)
 	}
